@@ -1,7 +1,9 @@
 (* Proofs/C02ReconstructProofs.v — ttensor.reconstruct with index-list samples (Model/C02Reconstruct.v): entry i of the result is the entry of
    the array the Tucker tensor denotes at the subscript whose k-th component is samples_k[i_k] (i_k itself where mode k is not sampled or its
-   sample is empty); rows may repeat and come in any order; a mode named twice keeps the later sample. *)
-From Coq Require Import List Arith Lia Bool Ring.
+   sample is empty); rows may repeat and come in any order.  The request test (wave 6, 9d2314a / C19-N29): an accepted request pairs samples and modes
+   one to one with DISTINCT modes of [0, ndims), so full_samples is a plain table (mode_j -> sample_j, every other mode empty: full_samples_lookup /
+   full_samples_other); negative, out-of-range and repeated modes are rejected (impl_reconstruct_req_rejects). *)
+From Coq Require Import List Arith Lia Bool Ring ZArith.
 From PV Require Import Base.Index Base.Perm Base.Sum Np.Array Model.Sparse Model.Repr Model.C02Spec Model.C02Dense Model.C02Tucker Model.C02TuckerFull
                        Model.C02Reconstruct Proofs.C02TuckerFullProofs.
 Import ListNotations.
@@ -76,5 +78,126 @@ Proof.
     rewrite Hi. rewrite (inb_sample _ fs i HR Hi).
     apply sum_over_ext. intros j _. f_equal. apply tprod_sample; auto.
     unfold fs. apply full_samples_length.
+Qed.
+
+(* ---- the request test ---- *)
+Lemma nth_upd_neq {A} (l : list A) k v j d : j <> k -> nth j (upd l k v) d = nth j l d.
+Proof. revert k j; induction l as [|x l IH]; intros [|k] [|j] H; cbn; auto; try lia; try (apply IH; lia). Qed.
+
+Let step := (fun (fs : list (list nat)) (sm : list nat * nat) => upd fs (snd sm) (fst sm)).
+
+Lemma fold_upd_length l : forall fs, length (fold_left step l fs) = length fs.
+Proof. induction l as [|a l IH]; intros fs; cbn; auto. rewrite IH. apply upd_length. Qed.
+
+Lemma fold_upd_notin l : forall fs k, ~ In k (map snd l) -> nth k (fold_left step l fs) [] = nth k fs [].
+Proof.
+  induction l as [|[s0 m0] l IH]; intros fs k H; cbn in *; auto.
+  rewrite IH by tauto. unfold step; cbn. apply nth_upd_neq. intros E. apply H. now left.
+Qed.
+
+Lemma fold_upd_in l : forall fs, NoDup (map snd l) -> (forall m, In m (map snd l) -> m < length fs) ->
+  forall s m, In (s, m) l -> nth m (fold_left step l fs) [] = s.
+Proof.
+  induction l as [|[s0 m0] l IH]; intros fs ND B s m HI; cbn in *; [contradiction|].
+  apply NoDup_cons_iff in ND as [Hn ND]. destruct HI as [E|HI].
+  - inversion E; subst. rewrite fold_upd_notin by exact Hn. unfold step; cbn.
+    rewrite nth_upd by (apply B; now left). now rewrite Nat.eqb_refl.
+  - apply IH; auto. intros m' Hm'. unfold step; cbn. rewrite upd_length. apply B. now right.
+Qed.
+
+Lemma map_snd_combine' {A B} (l : list A) : forall (l' : list B), length l = length l' -> map snd (combine l l') = l'.
+Proof. induction l as [|a l IH]; intros [|b l'] H; cbn in *; try discriminate; auto. f_equal. apply IH. lia. Qed.
+
+Lemma zdistinctb_spec l : zdistinctb l = true <-> NoDup l.
+Proof.
+  induction l as [|m r IH]; cbn; [split; [constructor|reflexivity]|].
+  rewrite andb_true_iff, negb_true_iff, IH, NoDup_cons_iff. split; intros [H1 H2]; split; auto.
+  - intros HI. assert (existsb (Z.eqb m) r = true) by (apply existsb_exists; exists m; split; [exact HI|apply Z.eqb_refl]). congruence.
+  - destruct (existsb (Z.eqb m) r) eqn:E; auto. apply existsb_exists in E as (y & Hy & Ey). apply Z.eqb_eq in Ey. subst. contradiction.
+Qed.
+
+Lemma recon_modes_ok_spec N modes :
+  recon_modes_ok N modes = true <-> (NoDup modes /\ forall m, In m modes -> (0 <= m < Z.of_nat N)%Z).
+Proof.
+  unfold recon_modes_ok. rewrite andb_true_iff, zdistinctb_spec, forallb_forall. split; intros [A B]; split; auto.
+  - intros m Hm. apply A in Hm. apply andb_true_iff in Hm as [H1 H2]. apply Z.leb_le in H1. apply Z.ltb_lt in H2. lia.
+  - intros m Hm. apply B in Hm. apply andb_true_iff. split; [apply Z.leb_le|apply Z.ltb_lt]; lia.
+Qed.
+
+Lemma nodup_tonat l : (forall m, In m l -> (0 <= m)%Z) -> NoDup l -> NoDup (map Z.to_nat l).
+Proof.
+  induction l as [|a l IH]; intros B ND; cbn; [constructor|].
+  apply NoDup_cons_iff in ND as [Hn ND]. constructor.
+  - rewrite in_map_iff. intros (y & E & Hy). apply Z2Nat.inj in E; [subst; contradiction| |]; apply B; cbn; auto.
+  - apply IH; auto. intros m Hm. apply B. now right.
+Qed.
+
+(* distinct modes of [0, N), one sample per mode: full_samples is the table mode_j -> sample_j ... *)
+Lemma full_samples_lookup N (modes : list Z) samples :
+  length samples = length modes -> NoDup modes -> (forall m, In m modes -> (0 <= m < Z.of_nat N)%Z) ->
+  forall j, j < length modes -> nth (Z.to_nat (nth j modes 0%Z)) (full_samples N (map Z.to_nat modes) samples) [] = nth j samples [].
+Proof.
+  intros HL ND B j Hj. unfold full_samples. fold step.
+  assert (HL' : length samples = length (map Z.to_nat modes)) by now rewrite map_length.
+  apply fold_upd_in.
+  - rewrite (map_snd_combine' _ _ HL'). apply nodup_tonat; auto. intros m Hm. apply B in Hm. lia.
+  - rewrite (map_snd_combine' _ _ HL'). intros m Hm. rewrite repeat_length. apply in_map_iff in Hm as (z & <- & Hz). apply B in Hz. lia.
+  - replace (nth j samples [], Z.to_nat (nth j modes 0%Z)) with (nth j (combine samples (map Z.to_nat modes)) ([], Z.to_nat 0%Z)).
+    + apply nth_In. rewrite combine_length, map_length. lia.
+    + rewrite combine_nth by exact HL'. f_equal. apply (map_nth Z.to_nat).
+Qed.
+
+(* ... and empty at every mode that is not named *)
+Lemma full_samples_other N (modes : list Z) samples :
+  length samples = length modes -> (forall m, In m modes -> (0 <= m)%Z) ->
+  forall k, ~ In (Z.of_nat k) modes -> nth k (full_samples N (map Z.to_nat modes) samples) [] = [].
+Proof.
+  intros HL B k Hk. unfold full_samples. fold step.
+  assert (HL' : length samples = length (map Z.to_nat modes)) by now rewrite map_length.
+  rewrite fold_upd_notin.
+  - destruct (Nat.lt_ge_cases k N) as [H|H]; [|now rewrite nth_overflow by (now rewrite repeat_length)].
+    apply (nth_repeat [] N k).
+  - rewrite (map_snd_combine' _ _ HL'). rewrite in_map_iff. intros (z & E & Hz). apply Hk.
+    replace (Z.of_nat k) with z; auto. apply B in Hz. lia.
+Qed.
+
+Theorem impl_reconstruct_req_correct (T : ttensor V) (modes : list Z) (samples : list (list nat)) (Y : dense V) :
+  wf_dense (tcore T) -> length (dshape (tcore T)) = length (tfactors T) ->
+  impl_reconstruct_req v0 vadd vmul T modes samples = Some Y ->
+  let N := length (tfactors T) in
+  let fs := full_samples N (map Z.to_nat modes) samples in
+  rows_ok (tfactors T) fs ->
+  (length samples = length modes /\ NoDup modes /\ forall m, In m modes -> (0 <= m < Z.of_nat N)%Z) /\
+  (forall j, j < length modes -> nth (Z.to_nat (nth j modes 0%Z)) fs [] = nth j samples []) /\
+  (forall k, ~ In (Z.of_nat k) modes -> nth k fs [] = []) /\
+  dshape Y = map (@nrows V) (new_factors (tfactors T) fs) /\ wf_dense Y /\
+  forall i, inb (dshape Y) i = true -> den_dense v0 Y i = den_t v0 v1 vadd vmul T (sample_idx fs i).
+Proof.
+  intros W L HS N fs HR. unfold impl_reconstruct_req in HS.
+  destruct (Nat.eqb (length samples) (length modes)) eqn:EL; cbn in HS; [|discriminate].
+  destruct (recon_modes_ok (length (tfactors T)) modes) eqn:EM; [|discriminate].
+  apply Nat.eqb_eq in EL. apply recon_modes_ok_spec in EM as [ND B]. inversion HS as [HY]. clear HS.
+  split; [auto|]. split; [exact (full_samples_lookup N modes samples EL ND B)|].
+  split; [apply full_samples_other; auto; intros m Hm; apply B in Hm; lia|].
+  exact (impl_reconstruct_correct T (map Z.to_nat modes) samples W L HR).
+Qed.
+
+Theorem impl_reconstruct_req_accepts (T : ttensor V) (modes : list Z) (samples : list (list nat)) :
+  length samples = length modes -> NoDup modes -> (forall m, In m modes -> (0 <= m < Z.of_nat (length (tfactors T)))%Z) ->
+  impl_reconstruct_req v0 vadd vmul T modes samples = Some (impl_reconstruct v0 vadd vmul T (map Z.to_nat modes) samples).
+Proof.
+  intros HL ND B. unfold impl_reconstruct_req. rewrite (proj2 (Nat.eqb_eq _ _) HL).
+  now rewrite (proj2 (recon_modes_ok_spec _ _) (conj ND B)).
+Qed.
+
+Theorem impl_reconstruct_req_rejects (T : ttensor V) (modes : list Z) (samples : list (list nat)) :
+  (length samples <> length modes \/ ~ NoDup modes \/ exists m, In m modes /\ ~ (0 <= m < Z.of_nat (length (tfactors T)))%Z) ->
+  impl_reconstruct_req v0 vadd vmul T modes samples = None.
+Proof.
+  intros H. unfold impl_reconstruct_req.
+  destruct (Nat.eqb (length samples) (length modes)) eqn:EL; cbn; [|reflexivity].
+  destruct (recon_modes_ok (length (tfactors T)) modes) eqn:EM; [|reflexivity].
+  apply Nat.eqb_eq in EL. apply recon_modes_ok_spec in EM as [ND B].
+  destruct H as [H|[H|(m & Hm & H)]]; [contradiction|contradiction|]. elim H. now apply B.
 Qed.
 End P.
